@@ -147,6 +147,11 @@ def check_structure(lines, res, compress):
                     i, ln.text.strip(), lay.start[i], len(b), b.hex(), want)))
         elif exp is not None and len(b) not in exp:
             bad.append(('C09', 'line {} {!r}: emitted {} bytes, documented size {}'.format(i, ln.text.strip(), len(b), sorted(exp))))
+        elif ln.kind == 'pjump' and ln.name in ('call', 'tail') and len(b) >= 4 and b[0] & 0x7f == 0x17 and len(b) != 8:
+            # the far form is a PAIR: an auipc that stands alone means the image of this item is incomplete
+            bad.append(('C09', 'line {} {!r}: emitted {} ({} bytes): an auipc without its jalr'.format(i, ln.text.strip(), b.hex(), len(b))))
+        elif ln.kind in ('li', 'lilabel') and len(b) in (4, 6) and len(b) >= 4 and b[0] & 0x7f == 0x37 and len(b) == 4:
+            bad.append(('C09', 'line {} {!r}: emitted {} ({} bytes): a lui without its addi'.format(i, ln.text.strip(), b.hex(), len(b))))
         db = data_bytes(ln)
         if db is not None and b != db:
             bad.append(('C10', 'line {} {!r}: emitted {} but the documented bytes are {}'.format(i, ln.text.strip(), b.hex(), db.hex())))
